@@ -32,6 +32,11 @@ func c07World(t *testing.T, p c07Params) rt.Result {
 		rid = lid + 0x100
 	case "gt":
 		rid = lid - 1
+	case "far-lt": // identifiers more than 2^31 apart
+		rid = 0xCB007109 // 203.0.113.9
+	case "far-gt":
+		localID, lid = netip.MustParseAddr("203.0.113.9"), 0xCB007109
+		rid = 0x0a000001
 	default:
 		rid = lid
 	}
@@ -213,8 +218,8 @@ func c07World(t *testing.T, p c07Params) rt.Result {
 func TestC07(t *testing.T) {
 	c := rt.Get()
 	modes := []string{"ordered", "simul", "estfirst", "race-est", "race-ka", "race-close", "race-bad"}
-	rel := [][2]string{{"lt", "lt"}, {"gt", "lt"}, {"eq", "lt"}, {"eq", "gt"}, {"lt", "gt"}, {"gt", "gt"}}
-	seeds := c.N(24, 1200)
+	rel := [][2]string{{"lt", "lt"}, {"gt", "lt"}, {"eq", "lt"}, {"eq", "gt"}, {"lt", "gt"}, {"gt", "gt"}, {"far-lt", "lt"}, {"far-gt", "lt"}, {"far-lt", "gt"}, {"far-gt", "gt"}}
+	seeds := c.N(16, 800)
 	idx := 0
 	for _, rl := range rel {
 		for _, m := range modes {
